@@ -656,6 +656,26 @@ func (g *fgen) families() {
 	g.w("func calleeTwo_%d(a func() (string, error), b func() (error, string, int)) (int, error) {\n\treturn 1, nil\n}\n", s)
 	g.w("func ClosTwo_%d() (int, error) {\n\treturn calleeTwo_%d(func() (string, error) { return \"q\", nil }, func() (error, string, int) { return nil, \"r\", 3 })\n}\n", s, s)
 
+	// recursion that passes through a func literal (seeded change C14-l: a fresh visited set per closure argument):
+	// closure argument of an error-returning callee, mutual recursion through closures, a closure held in a variable,
+	// an immediately invoked literal, a method callee, a generic callee, the second of two closure arguments,
+	// a closure nested in a closure
+	g.w("func withTx_%d(f func(k int) error) error { return f(0) }\n", s)
+	g.w("func RecClos_%d(n int) error {\n\treturn withTx_%d(func(k int) error {\n\t\tif k > n {\n\t\t\treturn errors.New(\"deep\")\n\t\t}\n\t\treturn RecClos_%d(k + 1)\n\t})\n}\n", s, s, s)
+	g.w("func try_%d(f func() (int, error)) (int, error) { return f() }\n", s)
+	g.w("func PingClos_%d() (int, error) {\n\treturn try_%d(func() (int, error) { return PongClos_%d() })\n}\n", s, s, s)
+	g.w("func PongClos_%d() (int, error) {\n\treturn try_%d(func() (int, error) { return PingClos_%d() })\n}\n", s, s, s)
+	g.w("func RecClosVar_%d(n int) error {\n\tf := func() error { return RecClosVar_%d(n - 1) }\n\tif n == 0 {\n\t\treturn nil\n\t}\n\treturn f()\n}\n", s, s)
+	g.w("func RecIIFE_%d(n int) error {\n\treturn func() error {\n\t\tif n == 0 {\n\t\t\treturn io.EOF\n\t\t}\n\t\treturn RecIIFE_%d(n - 1)\n\t}()\n}\n", s, s)
+	g.w("func (t *T) with_%d(f func() error) error { return f() }\n", s)
+	g.w("func (t *T) RecClosM_%d() error {\n\treturn t.with_%d(func() error { return t.RecClosM_%d() })\n}\n", s, s, s)
+	g.w("func tryG_%d[X any](f func() (X, error)) (X, error) { return f() }\n", s)
+	g.w("func RecGen_%d() (int, error) {\n\treturn tryG_%d(func() (int, error) { return RecGen_%d() })\n}\n", s, s, s)
+	g.w("func with2_%d(n int, a func() error, b func() error) error {\n\tif n > 0 {\n\t\treturn a()\n\t}\n\treturn b()\n}\n", s)
+	g.w("func RecSecondArg_%d() error {\n\treturn with2_%d(1, func() error { return nil }, func() error { return RecSecondArg_%d() })\n}\n", s, s, s)
+	g.w("func RecNestedClos_%d() error {\n\treturn withTx_%d(func(k int) error {\n\t\treturn withTx_%d(func(j int) error { return RecNestedClos_%d() })\n\t})\n}\n", s, s, s, s)
+	g.w("func RecClosTuple_%d(n int) (int, error) {\n\treturn try_%d(func() (int, error) {\n\t\tv, err := RecClosTuple_%d(n - 1)\n\t\tif err != nil {\n\t\t\treturn 0, rp.Wrap(err)\n\t\t}\n\t\treturn v, nil\n\t})\n}\n", s, s, s)
+
 	// calls into the second package, interfaces, forwarding
 	g.w("func Fwd_%d() (int, error) {\n\treturn rp.Lit()\n}\n", s)
 	g.w("func FwdAsg_%d() (int, error) {\n\tv, err := rp.Lit()\n\tif err != nil {\n\t\treturn 0, rp.Wrap(err)\n\t}\n\treturn v + 1, nil\n}\n", s)
